@@ -82,7 +82,7 @@ def eval_formula(formula, cells=None, addr=PROBE, default_sheet='Sheet1',
             except Exception:  # noqa: BLE001 - only the second run counts
                 pass
             for a, v in cells.items():
-                if d.get(a) != v:
+                if d.get(a) != v and a not in (presets or {}):
                     ev.set_cell_value(a, v)
     except Exception as err:  # noqa: BLE001
         return exc_tag(err), 'preset'
